@@ -28,10 +28,14 @@ PROPS = {
                      "Rust integer primitives (from_le_bytes, wrapping_sub, trailing_zeros, `as` casts, i32 shifts) behave as documented",
                      "io::Write::write_all on Vec / the recording writer delivers each buffer whole",
                      "the build uses fast_arithmetic=\"64\" (64-bit Chunk), as on the checked platform"],
-        partial=["the decode side (c05_decode_spec, c05_roundtrip, c05_borrowed, c05_bytes_target, c05_str_source_utf8) is provided "
-                 "by the lead's byte-step parser machine and is not part of this branch; here: serializer escaping "
-                 "(c05_escape_table, c05_escape_spec, c05_escape_buffers_utf8_cut), decode_four_hex_digits (c05_hex_tables, "
-                 "c05_hex4_spec) and the SWAR scanner (c05_swar_first_escape, c05_swar_in_bounds, c05_first_escape_char)"],
+        partial=["decode side: c05_decode_spec / c05_decode_reject (a well-formed literal parses to String(s) iff its surrogate "
+                 "escapes are paired, its RFC 8259 decoding is s and - on byte sources - s is valid UTF-8; rejected otherwise), "
+                 "c05_roundtrip / c05_roundtrip_written (parse(escape(s)) = s from every source) and c05_str_source_utf8 (the &str "
+                 "source returns valid UTF-8 on valid UTF-8 input) are theorems over the byte-step parser machine, obtained from "
+                 "C01/C02; c05_borrowed and c05_bytes_target (typed targets) are not part of this check; also here: serializer "
+                 "escaping (c05_escape_table, c05_escape_spec, c05_escape_buffers_utf8_cut), decode_four_hex_digits "
+                 "(c05_hex_tables, c05_hex4_spec) and the SWAR scanner (c05_swar_first_escape, c05_swar_in_bounds, "
+                 "c05_first_escape_char)"],
         technique="Lean 4 theorems over all byte strings / all 2^32 hex groups / all slices and start indices; ESCAPE, HEX0/HEX1 "
                   "pieces and SWAR constants regenerated from source each run; bv_decide for the 64-bit chunk facts; differential "
                   "run of escaping, \\u decoding and the scanner against the crate",
@@ -260,13 +264,14 @@ PROPS["C09"] = dict(
     trusted_base=MACHINE_TB,
     assumptions=["io::Bytes yields the reader's bytes one at a time in order, whatever the chunking (std)",
                  "typed targets, raw values and stream iteration are not yet inside the model"],
-    partial=["c09_str_slice for the Value target (needs: decoded strings of a UTF-8 input are UTF-8) — carried by correspondence",
-             "typed targets (|delta index| <= 1), 128-bit, raw, stream byte_offset: correspondence pending"],
+    partial=["typed targets (|delta index| <= 1), 128-bit, raw, stream byte_offset: correspondence pending"],
     technique="Lean 4 theorem: the byte-step machine's outcome is independent of the slice/reader source (step-wise equality + all "
               "error sites include the offending byte) + three-source differential run against the crate",
     level_text="Machine-checked: c09_slice_reader — for every configuration, both untyped targets and every byte string the slice and "
                "reader sources give the same value or the same error code at the same position (hence message, category, line, "
-               "column); c09_str_slice_ignored for skipped content. The crate is run on every generated input from all three "
+               "column); c09_str_slice_value / c09_str_slice / c09_all_sources — on every valid UTF-8 input (every &str) the &str source gives "
+               "the identical outcome too (the UTF-8 check it skips never fires: what is decoded so far followed by the unread input "
+               "stays valid UTF-8); c09_str_slice_ignored for skipped content without that hypothesis. The crate is run on every generated input from all three "
                "sources with random chunkings and the outcomes are compared with each other (spec) and with the model.",
     level_note="Trusted: Lean kernel + 3 standard axioms; extract.py; harness/driver; hand-written machine model validated by "
                "correspondence. Two genuine position defects found by this check were repaired in /repo (fix: commits 28defde, 9343bad).",
@@ -301,14 +306,17 @@ PROPS["C14"] = dict(
          "10^6-element array) each through Value (slice, reader) and IgnoredAny under catch_unwind.",
     trusted_base=MACHINE_TB,
     assumptions=["memory safety of compiled unsafe blocks, real stack consumption and allocator behaviour are runtime properties outside any model (partial by nature)"],
-    partial=["c14_utf8 (every returned String is valid UTF-8), c14_no_fuel (number conversion never runs out of fuel) and the shape "
+    partial=["c14_no_fuel (number conversion never runs out of fuel) and the shape "
              "invariant making the remaining model fallbacks unreachable are not proved yet",
              "typed targets / enum wrappers / stream depth restoration: not yet modelled"],
     technique="Lean 4 invariants over the byte-step machine (stack height < 128 for every reachable state, re-dispatch happens at most "
               "once, termination by structural recursion) + pathological-input runs of the crate under catch_unwind",
     level_text="Machine-checked: c14_depth_bounded (every reachable state of a Value parse has at most 127 open containers, so the real "
                "recursion is bounded), c14_limit_hit (opening the 128th container is RecursionLimitExceeded at that byte), "
-               "c14_again_once (the only unreachable!-style fallback of step is unreachable); termination by construction. The crate "
+               "c14_again_once (the only unreachable!-style fallback of step is unreachable), c14_utf8 (every string and key of a "
+               "returned value is valid UTF-8 - for the &str source, which uses str::from_utf8_unchecked, given that its input is "
+               "valid UTF-8) and c14_utf8_at_closing_quote (the same at every closing quote reached, also in documents rejected "
+               "later); termination by construction. The crate "
                "is run on random bytes, mutated documents, depth profiles and megabyte/10^6-deep inputs with catch_unwind.",
     level_note="Trusted: Lean kernel + 3 standard axioms; extract.py (remaining_depth = 128 is regenerated); harness/driver; machine "
                "model. Partial by nature: actual memory safety and stack usage of compiled code cannot be exhibited by a model.",
@@ -662,8 +670,9 @@ PROPS["C04"] = dict(
              "c04_wf_of_parse_partial: every value returned by the parser satisfies WFValue — proved for byte sources (from_slice/"
              "from_reader) under the hypothesis that the floats of the returned value are finite (c04_wf_of_parse_finite: or that the "
              "configured conversion returns finite floats only — C07/C08's finiteness clause, a statement about Spec.Ieee rounding not "
-             "proved here); unconditional under arbitrary_precision (c04_wf_of_parse_ap); for &str input the UTF-8 clause needs 'decoding "
-             "valid UTF-8 text yields valid UTF-8 strings', not proved",
+             "proved here); unconditional under arbitrary_precision (c04_wf_of_parse_ap); for &str input the same with the hypothesis that "
+             "the input is valid UTF-8, which the type &str guarantees (c04_wf_of_parse_str_partial / _str_finite / _str_ap, "
+             "c04_reparse_str_partial)",
              "c04_reparse_partial (from_slice(to_vec(from_slice(bs))) = from_slice(bs)) inherits both float hypotheses"],
     technique="Lean 4 theorems obtained by composing the Value fragment of C03 (serializer output = one RFC 8259 value with syntax tree "
               "cstOf(image); re-proved layout-independently: the extracted formatter literals need only be their structural character plus "
